@@ -830,6 +830,7 @@ func (e *Engine) handBack2(s atree.Storable, m MV, keep bool, popped bool, what 
 			return e.viol("%s: handed-back container is not a slab reference but %T", what, unwrapStorable(s))
 		}
 		if keep {
+			n.Former = n.Parent
 			n.Parent = nil
 			n.Detached = true
 			n.Root = atree.SlabID(id)
